@@ -2,6 +2,7 @@
 import os, random
 from .servebase import *
 import netprobe, vlib
+from . import c04
 
 REQUIRED = [("X-Content-Type-Options", lambda v: v == "nosniff"), ("X-Frame-Options", lambda v: v == "SAMEORIGIN"),
             ("Cache-Control", lambda v: "no-store" in v and "no-cache" in v), ("Accept-Ranges", lambda v: v == "bytes"),
@@ -72,7 +73,15 @@ class P(ServeProp):
             elif r < 0.40:
                 out.append(gs.serve_case(rnd, kind="serve", opts="app=err"))
             else:
-                out.append(gs.serve_case(rnd, kind=kind))
+                c = gs.serve_case(rnd, kind=kind)
+                if i % 6 == 3:
+                    # the built-in form and upload routes, with bodies of every kind (valid, empty, not UTF-8, multipart well formed and not): each
+                    # route has error branches of its own that build a response.  A generator of its own, seeded from the case number, so
+                    # that the streams of earlier runs stay
+                    r2 = random.Random(i * 7919 + 17)
+                    m, tg, hs, body = c04.P.form_request(self, r2)
+                    c = gs.serve_case(r2, kind=kind, target=tg, method=m, headers=hs, body=body, meta="form=1")
+                out.append(c)
         return out
 
     def oracle(self, line, out):
